@@ -506,6 +506,11 @@ impl Property for C06 {
             plans.push((250_000, 2, 3, 1, 4, 30, 1500, rot));
             plans.push((99_999, 1, 2, 0, 5, 700, 2400, rot));
         }
-        plans.into_iter().map(|p| json!({"huge": p})).collect()
+        let mut out: Vec<Value> = plans.into_iter().map(|p| json!({"huge": p})).collect();
+        // tails of more than 512 / 1024 summands whose mass lies far beyond k (20 000-leaf fixture)
+        for (target, k, n) in [(7u8, 1u32, 600u32), (6, 3, 1500), (7, 0, 2400), (5, 2, 1100)] {
+            out.push(serde_json::to_value(Case::Large { mode: 0, stride: 2, offset: 0, target, k, n, rot }).unwrap());
+        }
+        out
     }
 }
